@@ -287,7 +287,7 @@ class AsyncScripted(dns.asyncbackend.Socket):
         return self._sync.recv(size)
 
 
-def exit_event(zone, relativize):
+def exit_event(zone, relativize, how="library"):
     open_txns = 0
     for txn in _CREATED:
         if not getattr(txn, "_ended", False):
@@ -303,7 +303,7 @@ def exit_event(zone, relativize):
             raise
         except BaseException:  # noqa: BLE001
             usable = False
-    return {"op": "exit", "zone": project_zone(zone, relativize), "open": open_txns, "wtxn": wtxn, "usable": usable}
+    return {"op": "exit", "how": how, "zone": project_zone(zone, relativize), "open": open_txns, "wtxn": wtxn, "usable": usable}
 
 
 def replay_query(script, zclass, relativize, tid, umode="", use_async=False, tail="none"):
@@ -446,7 +446,13 @@ def replay_query(script, zclass, relativize, tid, umode="", use_async=False, tai
     return traces[0]
 
 
-def replay(script, zclass, relativize, via, tid, tail="none", umode=""):
+def replay(script, zclass, relativize, via, tid, tail="none", umode="", leave="propagate"):
+    """leave (direct / wire paths) = how the caller leaves the `with dns.xfr.Inbound(...)` block:
+    "propagate": every exception (the transfer's, or the caller's own EOFError when the messages run out before the
+                 transfer is done) travels out of the block;
+    "caught":    the caller handles the transfer's exception inside the block (as tests/test_xfr.py does) and, like
+                 "clean", just stops when the messages run out; the block is then left normally;
+    "clean":     exceptions of the transfer propagate, but when the messages run out the block is left normally."""
     if via in ("query", "query-tryfirst", "aquery", "aquery-tryfirst"):
         if via.endswith("-tryfirst"):
             umode = "TRY_FIRST"
@@ -462,8 +468,9 @@ def replay(script, zclass, relativize, via, tid, tail="none", umode=""):
     trace = {"tid": tid, "zclass": zclass, "rel": relativize, "via": via, "req": req, "udp": udp, "base": base,
              "init": init, "zone0": project_zone(zone, relativize), "msgs": msgs, "kind": script["kind"],
              "fault": script["fault"]["k"], "target": sorted([r[0], r[1], r[2], list(r[3])] for r in script["target"]),
-             "ev": []}
+             "leave": leave, "ev": []}
     ev = trace["ev"]
+    how = "clean"
     rdtype = dns.rdatatype.IXFR if req == "ixfr" else dns.rdatatype.AXFR
     serial = (base[0] * 65536 + base[1]) if req == "ixfr" else None
     query, qserial = dns.xfr.make_query(zone, serial)
@@ -478,7 +485,9 @@ def replay(script, zclass, relativize, via, tid, tail="none", umode=""):
             while not done:
                 if i >= len(msgs):
                     ev.append({"op": "eof"})
-                    raise EOFError
+                    if leave == "propagate":
+                        raise EOFError
+                    break
                 rec = {"op": "msg", "i": i + 1}
                 try:
                     m = build_message(msgs[i], req, query, relativize, via, fwo, not udp)
@@ -489,6 +498,9 @@ def replay(script, zclass, relativize, via, tid, tail="none", umode=""):
                     raise
                 except BaseException as e:  # noqa: BLE001 - every outcome is an event
                     rec.update(res="err", exc=type(e).__name__, ret=False)
+                    if leave == "caught":
+                        how = "caught"
+                        break
                     raise
                 finally:
                     rec["stx"], rec["st"] = state_of(ib)
@@ -498,8 +510,8 @@ def replay(script, zclass, relativize, via, tid, tail="none", umode=""):
     except Stuck:
         raise
     except BaseException:  # noqa: BLE001
-        pass
-    ev.append(exit_event(zone, relativize))
+        how = "propagate"
+    ev.append(exit_event(zone, relativize, how))
     return trace
 
 
@@ -511,6 +523,7 @@ def run_job(job):
     script, zclass, relativize, via, tid = job[:5]
     tail = job[5] if len(job) > 5 else "none"
     umode = job[6] if len(job) > 6 else ""
+    leave = job[7] if len(job) > 7 else "propagate"
     # hang detection without wall-clock time: blocking waits raise Stuck through the threading shim above, busy
     # loops run into a CPU-time limit; the wall-clock timer is a very large last resort only
     try:
@@ -521,7 +534,7 @@ def run_job(job):
     except ValueError:  # not in the main thread
         pass
     try:
-        return replay(script, zclass, relativize, via, tid, tail, umode)
+        return replay(script, zclass, relativize, via, tid, tail, umode, leave)
     except (Exception, Stuck) as e:  # a driver failure becomes an event nobody matches
         return {"tid": tid, "zclass": zclass, "rel": relativize, "via": via, "req": "axfr", "udp": False, "base": [],
                 "init": [], "zone0": [], "msgs": [], "kind": "driver-error", "fault": "none", "target": [],
